@@ -48,6 +48,11 @@ LEVEL_TEXT += (
     "tag names containing the separator, empty tags, and the "
     "connectivity of unsorted triangle meshes through every loader "
     "(open findings).")
+LEVEL_TEXT += (
+    " Added in the second hunting round (DESIGN.md 9.6): "
+    "both cell-set parsers skip the gmsh namespace; legacy names are "
+    "resolved by number and dimension, unnamed groups never become the "
+    "key None; point data has one value per stored point.")
 LEVEL_NOTE = ("Trusted: meshio reads what it writes; numpy savez/load, "
               "nonzero/sort/argsort semantics.")
 EXPLANATION = "Symmetry / typing / effect rules on the I/O code."
